@@ -148,6 +148,16 @@ def write_program(prog, outdir, lay=None):
     for name, decls in prog["files"].items():
         p = os.path.join(outdir, name + ".bitproto")
         txt = render_file(decls, lay)
+        # how the file ends: a final newline (default), none, or comment lines without one
+        eof = prog.get("_eof")
+        if eof == "no-newline":
+            txt = txt.rstrip("\n")
+        elif eof == "comment-no-newline":
+            txt = txt + "// the last line is a comment"
+        elif eof == "two-comments-no-newline":
+            txt = txt + "// a trailing note\n// its second line"
+        elif eof == "end-of-line-comment-no-newline":
+            txt = txt.rstrip("\n") + " // end"
         with open(p, "w", encoding="utf8") as f:
             f.write(txt)
         prog["_texts"][name] = txt
